@@ -420,6 +420,15 @@ def slice_end_rule(F, rep):
             else:
                 rep.violation(rid, key, "%s guards the slice at line %s with `end < len`: a result that ends at the last element is rejected (returns null inside the function's domain)"
                               % (name.split("::")[-1], s.line), "%s:%s" % (F.bodies[name]["file"], s.line))
+    if n == 0:
+        # no guard of the recognised shape (a comparison dominating the slice): the statement "a result that ends at the last element is in the domain" is then decided
+        # by folding sublist on the cases that end at the last element (and one past it), the guard wherever it is written (an Option chain, a helper)
+        from props import c08_lists
+        cases = [([c08_lists.L4, 1, 4], c08_lists.L4), ([c08_lists.L4, 4, 1], ["d"]), ([c08_lists.L4, -1, 1], ["d"]), ([c08_lists.L4, 2, 3], ["b", "c", "d"]), ([c08_lists.L4, 2, 4], None)]
+        got = [c08_lists.fold(F, "bif_sublist", a)[0] for a, _ in cases]
+        if all(g is not None and len(g) == 1 and g[0] == w for g, (_, w) in zip(got, cases)):
+            n = 1
+            rep.ok(rid, "sublist:slice-end:fold", "sublist folded on the cases ending at the last element answers the specified list (and null one past it)")
     rep.floor(rid, "range slices guarded by their end", n, 1)
 
 
